@@ -100,8 +100,10 @@ Fixpoint calls_ok (k : c13_case) (gsig : signature) (cs : list call)
          the own signature accepts *)
       is_type_error out &&
       Bool.eqb (is_ok out) (accepts (sg_params gsig) c) &&
-      (* the wrapper is reached exactly on accepted calls *)
+      (* the wrapper is reached exactly on accepted calls, and receives the own
+         parameters as bound: positional ones by position, keyword-only ones by keyword *)
       Bool.eqb (match saw with Some _ => true | None => false end) (is_ok out) &&
+      option_eqb call_eqb saw (forwarded (sg_params gsig) c) &&
       (* plain wraps at every level, forwarding wrappers: same outcome as the original,
          which sees the same bound arguments, defaults included *)
       (if plain k && k_forward k then rb_eqb out d else true) &&
